@@ -460,5 +460,10 @@ fn subchecks(ctx: &Ctx) -> Vec<SubCheck> {
     v.push(SubCheck::new("boxed/mul/1..=70", 6000, boxed_mul_case(70)).tape(200));
     v.push(SubCheck::new("boxed/mul/1..=140", 2500, boxed_mul_case(140)).tape(330));
     v.push(SubCheck::new("boxed/square/1..=140", 2500, boxed_square_case(140)).tape(200));
+    // the first version of this crate ran 120k cases in 0.4 s; scale to a few seconds of quick work
+    for sc in v.iter_mut() {
+        let wide = sc.name.contains("U4096") || sc.name.contains("U8192") || sc.name.contains("U2048");
+        sc.cases *= if wide { 6 } else { 20 };
+    }
     v
 }
